@@ -608,7 +608,7 @@ func TestVerifC44(t *testing.T) {
 			runOne(cs)
 		}
 		r := vNewRand(vSeed())
-		n := vN(400, 5000)
+		n := vN(300, 2500)
 		for i := 0; i < n; i++ {
 			runOne(c44Gen(r.Fork(), i%5 == 4))
 		}
